@@ -339,59 +339,74 @@ def _blocks(repr_):
 
 
 def grouping_records(_):
+    """Grouping codecs and class ids through the PUBLIC surface only: the module-level codec pairs linear_index.to_<shape> / from_<shape>, and
+    LCClass<n>(id) / .type / .data / .id() / count() / get_entanglement_structure() / LC_GI_size().  (The private tables _start_indices, combinatorics,
+    combinatorics_map are not read: another organisation of them is equally correct - refactor R15.)"""
     import itertools
+    import math
+    import re
     lib = L()
     li = lib.linear_index
     recs = []
-    seen = set()
+    names = sorted(m.group(1) for m in (re.fullmatch(r"to_(\d+s?)", a) for a in dir(li)) if m and hasattr(li, "from_" + m.group(1)))
+    for name in names:
+        to, frm = getattr(li, "to_" + name), getattr(li, "from_" + name)
+        digits = [int(c) for c in name if c.isdigit()]
+        ordered = 1 if name.endswith("s") else 0
+        trivial = digits == [0]
+        sizes = [0] * 6
+        if not trivial:
+            for d in digits:
+                sizes[d - 1] += 1
+        n = 0 if trivial else sum(digits)
+        # how many indices to ask for: the number of such groupings (a hint only - the specification computes the number itself, clause `count`)
+        den = 1
+        for k, c in enumerate(sizes):
+            den *= math.factorial(k + 1) ** c * math.factorial(c)
+        count = 1 if trivial else math.factorial(n) // den * (2 if ordered else 1)
+        rec = {"op": "grouping", "type": name, "n": n, "sizes": sizes, "count": count, "ordered": ordered,
+               "images": [], "back": [], "perm": [], "singles": [], "exc": ""}
+        try:
+            for i in range(count):
+                r = to(i)
+                blocks = _blocks(r)
+                rec["images"].append(blocks)
+                rec["singles"].append([b[0] for b in blocks if len(b) == 1] if ordered else [])
+                rec["back"].append(int(frm(to(i))))
+                pb = []
+                tuples = [t for groups in to(i).groups for t in groups]
+                for perm in itertools.permutations(range(len(tuples))):
+                    order = [tuples[k] for k in perm]
+                    if ordered:  # the relative order of the singletons is part of the value
+                        s_in = [t.data for t in tuples if len(t) == 1]
+                        s_out = [t.data for t in order if len(t) == 1]
+                        if s_in != s_out:
+                            continue
+                    rp = li.Repr([li.NTuple(list(t.data)) for t in order]) if order else li.Repr()
+                    pb.append(int(frm(rp)))
+                rec["perm"].append(pb)
+        except Exception as e:
+            rec["exc"] = exc_name(e) + ": " + str(e)[:100]
+        recs.append(rec)
     for n in range(2, 7):
         cls = getattr(lib.lc_classes, f"LCClass{n}")
-        for name, com in cls.combinatorics.items():
-            if (n, name) in seen:
-                continue
-            seen.add((n, name))
-            digits = [int(c) for c in name if c.isdigit()]
-            ordered = 1 if name.endswith("s") else 0
-            trivial = len(digits) == 1
-            sizes = [0] * 6
-            if not trivial:
-                for d in digits:
-                    sizes[d - 1] += 1
-            to, frm, count = com["from_lin_idx1"], com["to_lin_idx"], int(com["count"])
-            rec = {"op": "grouping", "type": name, "n": 0 if trivial else sum(digits), "sizes": sizes, "count": count, "ordered": ordered,
-                   "images": [], "back": [], "perm": [], "singles": [], "exc": ""}
-            try:
-                for i in range(count):
-                    r = to(i)
-                    blocks = _blocks(r)
-                    rec["images"].append(blocks)
-                    rec["singles"].append([b[0] for b in blocks if len(b) == 1] if ordered else [])
-                    rec["back"].append(int(frm(to(i))))
-                    pb = []
-                    tuples = [t for groups in to(i).groups for t in groups]
-                    for perm in itertools.permutations(range(len(tuples))):
-                        order = [tuples[k] for k in perm]
-                        if ordered:  # the relative order of the singletons is part of the value
-                            s_in = [t.data for t in tuples if len(t) == 1]
-                            s_out = [t.data for t in order if len(t) == 1]
-                            if s_in != s_out:
-                                continue
-                        rp = li.Repr([li.NTuple(list(t.data)) for t in order]) if order else li.Repr()
-                        pb.append(int(frm(rp)))
-                    rec["perm"].append(pb)
-            except Exception as e:
-                rec["exc"] = exc_name(e) + ": " + str(e)[:100]
-            recs.append(rec)
         K = impl.NUM_CLASSES[n]
-        sr = {"op": "startidx", "n": n, "starts": [int(x) for x in cls._start_indices], "counts": [], "reids": [], "types": [], "exc": ""}
+        sr = {"op": "startidx", "n": n, "starts": [], "counts": [], "reids": [], "types": [], "exc": ""}
         try:
-            for t in cls.EntanglementStructure:
-                sr["counts"].append(int(cls.combinatorics[cls.combinatorics_map[t]]["count"]))
+            structs = list(cls.EntanglementStructure)
             for i in range(K):
-                sr["reids"].append(int(cls(i).id()))
+                obj = cls(i)
+                again = cls(obj.type, li.Repr([li.NTuple(list(t.data)) for groups in obj.data.groups for t in groups]) if _blocks(obj.data) else li.Repr())
+                sr["reids"].append(int(again.id()) if int(obj.id()) == i else -1)       # id -> (type, grouping) -> id
                 sr["types"].append(int(cls.get_entanglement_structure(i)))
+            first = {}
+            for i, t in enumerate(sr["types"]):
+                first.setdefault(t, i)
+            sr["starts"] = [first.get(int(t), -1) for t in structs] + [int(cls.count())]
+            for t in structs:
+                sr["counts"].append(int(cls.LC_GI_size(t)))
         except Exception as e:
-            sr["exc"] = exc_name(e)
+            sr["exc"] = exc_name(e) + ": " + str(e)[:100]
         recs.append(sr)
     return recs
 
